@@ -66,6 +66,25 @@ Theorem C01_counts_exact : forall img s ef, wf_image img s = true -> elf_open im
 Proof. exact counts_exact. Qed.
 Print Assumptions C01_counts_exact.
 
+(* the thresholds of the three escapes, explicit: what a well-formed image's header fields look
+   like.  SHN_LORESERVE = 0xff00 for the section count and the name-table index, PN_XNUM = 0xffff
+   for the segment count (so 0xff00..0xfffe segments are carried by e_phnum itself); from the
+   threshold on the escape (0 / 0xffff / 0xffff + section header 0) is the only encoding.
+   With C01_counts_exact: in each of these cases the reported count is the encoded one. *)
+Theorem C01_escape_thresholds : forall img s, wf_image img s = true ->
+  let e := i_ehdr s in
+  (0 < n_sections s -> n_sections s < 0xff00 ->
+     e_shnum e = n_sections s \/ (e_shnum e = 0 /\ sh_size (sec0 s) = n_sections s)) /\
+  (0xff00 <= n_sections s -> e_shnum e = 0 /\ sh_size (sec0 s) = n_sections s) /\
+  (0 < n_segments s -> n_segments s < 0xffff ->
+     e_phnum e = n_segments s \/ (e_phnum e = 0xffff /\ sh_info (sec0 s) = n_segments s)) /\
+  (0xffff <= n_segments s -> e_phnum e = 0xffff /\ sh_info (sec0 s) = n_segments s) /\
+  (0 < n_sections s -> i_shstrndx s < 0xff00 ->
+     e_shstrndx e = i_shstrndx s \/ (e_shstrndx e = 0xffff /\ sh_link (sec0 s) = i_shstrndx s)) /\
+  (0xff00 <= i_shstrndx s -> e_shstrndx e = 0xffff /\ sh_link (sec0 s) = i_shstrndx s).
+Proof. exact escape_thresholds. Qed.
+Print Assumptions C01_escape_thresholds.
+
 (* ---- 4. names (C16's C-string theorem), objects, enumeration in file order, type filter *)
 Theorem C01_names_exact : forall img s ef i x, wf_image img s = true -> elf_open img = Ok ef ->
   nth_sec s i = Some x -> get_section_name ef (Some (exp_shdr s (snd x))) = Ok (fst x).
